@@ -9,6 +9,7 @@ the requested mesh.  (2) Phonopy.run_mesh with mesh symmetry on/off: thermal pro
 from __future__ import annotations
 
 import itertools
+import os
 
 import numpy as np
 
@@ -52,6 +53,11 @@ def plan(tier, seed):
                 for gc, tr in itertools.product((False, True), (True, False)):
                     g.append({"kind": "phys", "xtal": name, "mesh": mesh, "shift": sh, "gc": gc, "tr": tr})
         groups.append(g)
+    # meshes beyond any internal block size: > 1024 irreducible points with non-uniform weights; > 2^26/(16 nband^2) q-points with 24 bands
+    groups.append([{"kind": "phys", "xtal": "ortho-P-2", "mesh": [23, 23, 23], "shift": 0, "gc": True, "tr": True}])
+    groups.append([{"kind": "phys", "xtal": "ortho-P-2", "mesh": [13, 12, 11], "shift": 0, "gc": False, "tr": True}])
+    groups.append([{"kind": "phys", "xtal": "NaCl-conv-8", "mesh": [20, 20, 20], "shift": 0, "gc": False, "tr": True, "noprim": True}])
+    groups.append([{"kind": "phys", "xtal": "rutile-6", "mesh": [24, 24, 24], "shift": 0, "gc": True, "tr": True}])
     # histories inside one process: crystals whose point groups have the same order but different matrices, same mesh
     # configuration, alternating (a cache keyed too coarsely would hand one crystal the other's mapping table)
     for mesh in ([2, 2, 2], [3, 3, 3], [4, 4, 4], [2, 2, 3], [4, 4, 2]):
@@ -187,12 +193,12 @@ def run_grid(case, seed):
 
 
 def run_phys(case, seed):
-    ck = ("ph", case["xtal"], bool(case.get("nosym")), case.get("nac"))
+    ck = ("ph", case["xtal"], bool(case.get("nosym")), case.get("nac"), bool(case.get("noprim")))
     if ck not in _cache:
         c = phx.xtal(case["xtal"])
         S = [[2, 0, 0], [0, 2, 0], [0, 0, 2]] if len(c["symbols"]) <= 2 else [[1, 0, 0], [0, 1, 0], [0, 0, 1]]
-        ph = phx.make_phonopy(c, S, c["centring"][0] if c["centring"] else None, is_symmetry=not case.get("nosym"))
-        fc = phx.supercell_fc(ph, phx.model_for(ph, "short" if len(c["symbols"]) <= 2 else "nn", seed))
+        ph = phx.make_phonopy(c, S, c["centring"][0] if (c["centring"] and not case.get("noprim")) else None, is_symmetry=not case.get("nosym"))
+        fc = phx.supercell_fc(ph, phx.model_for(ph, "nn", seed))  # ("short" is below the nearest-neighbour distance for several of these cells: flat zero spectrum)
         if case.get("nosym"):
             # lower the symmetry of the force constants (keep index-permutation symmetry and the sum rule): the object was
             # told not to use crystal symmetry, so only time reversal may be used to reduce the mesh
@@ -223,6 +229,8 @@ def run_phys(case, seed):
         md = ph.get_mesh_dict()
         nir[ms] = len(md["weights"])
         f, w = md["frequencies"], md["weights"]
+        if np.abs(f).max() < 1e-6:
+            raise RuntimeError("vacuous scenario: flat zero spectrum for %s" % case["xtal"])
         if w.sum() != np.prod(case["mesh"]):
             return dict(ok=False, sig="C09/phys/weight-sum/" + tag, msg="%s mesh=%s: weights sum %d" % (case["xtal"], case["mesh"], w.sum()))
         ph.run_thermal_properties(t_min=0, t_max=900, t_step=300, cutoff_frequency=1e-3)
@@ -231,6 +239,24 @@ def run_phys(case, seed):
         dos = ph.get_total_dos_dict()["total_dos"]
         mom = [float((w[:, None] * np.abs(f) ** k).sum() / w.sum()) for k in (0, 1, 2)]
         res[ms] = np.concatenate([tp["free_energy"], tp["entropy"], tp["heat_capacity"], dos, mom])
+        if np.prod(case["mesh"]) <= 64 and not case.get("nac"):
+            # mode-projected sums: the components add up to the total for the same mesh (eigenvectors are normalised)
+            ph.run_mesh(case["mesh"], shift=shift, is_time_reversal=case["tr"], is_mesh_symmetry=ms, is_gamma_center=case["gc"], with_eigenvectors=True)
+            ph.run_thermal_properties(t_min=0, t_max=900, t_step=300, cutoff_frequency=1e-3, is_projection=True)
+            import tempfile
+
+            import yaml
+
+            with tempfile.TemporaryDirectory(prefix="c09_") as td:
+                ph.write_yaml_thermal_properties(filename=os.path.join(td, "tp.yaml"))
+                y = yaml.safe_load(open(os.path.join(td, "tp.yaml")))
+            for key in ("free_energy", "entropy", "heat_capacity"):
+                tot = np.array([np.sum(r[key]) for r in y["projected_thermal_properties"]])
+                ref_ = np.array([r[key] for r in y["thermal_properties"]])
+                ep = float(np.abs(tot - ref_).max() / max(np.abs(ref_).max(), 1e-9))
+                if ep > 2e-6:  # printed with 7 decimals
+                    return dict(ok=False, sig="C09/phys/projection-sum/" + tag, resid=ep, nontrivial=True,
+                                msg="%s mesh=%s mesh_symmetry=%s: the projected %s summed over components differs from the total by %.3g (rel)" % (case["xtal"], case["mesh"], ms, key, ep))
     scale = np.maximum(np.abs(res[False]), 1e-9)
     e = float((np.abs(res[True] - res[False]) / scale).max())
     nontriv = nir[True] < nir[False]
